@@ -1,4 +1,4 @@
 From Coq Require Extraction ExtrOcamlBasic.
 From Centro Require Import Base.Sx Model.Lines Spec.Lines.
 Extraction Language OCaml.
-Extraction "extracted/c16.ml" entry_draw entry_lines entry_check entry_check_line.
+Extraction "extracted/c16.ml" entry_draw entry_lines entry_check entry_check_line entry_draw_fast entry_lines_fast.
